@@ -120,7 +120,7 @@ def acceptsX : X → Json → Bool
           shapeAcceptsG ((objSt shape.keys ops).fieldOpt) shape fs
           && (match mode with
               | .strict => fs.all (fun k _ => shape.keys.contains k)
-              | .strip => true
+              | .strip => catchAccepts ca shape.keys fs
               | .loose => catchAccepts ca shape.keys fs)
           && szOk cks (match mode with
               | .strip => (fs.filter (fun k => shape.keys.contains k)).size
